@@ -190,7 +190,7 @@ SEEDREPLAY_RE = re.compile(r'VERIF-SEEDREPLAY seed=(\d+)')
 
 
 def worker_cmd(binpath, job, seed, checks, timeout_s, failfile=None):
-    cmd = [binpath, "-test.run", "^%s$" % job["test"], "-test.cpu", "1", "-test.count", "1",
+    cmd = [binpath, "-test.run", "^%s$" % job["test"], "-test.cpu", str(job.get("gomaxprocs", 1)), "-test.count", "1",
            "-test.timeout", "%ds" % timeout_s, "-test.v",
            "-rapid.shrinktime", os.environ.get("VERIF_SHRINKTIME", "45s")]
     if failfile and failfile.endswith(".seed"):
